@@ -16,7 +16,7 @@ from ..flow import Flow
 from .C06 import fold
 
 GEO = "typhon/geodesy.py"
-EXPECT = {"C07.buffers": 2, "C07.args": 8, "C07.losopt": 3, "C07.geodetic": 3, "C07.radius": 3, "C07.sphere": 4, "C07.dist": 5, "C07.fixpoint": 4, "C07.tol": 2, "C07.compose": 2, "C07.models": 2, "C07.los": 1}
+EXPECT = {"C07.buffers": 2, "C07.args": 10, "C07.losopt": 3, "C07.geodetic": 3, "C07.radius": 3, "C07.sphere": 4, "C07.dist": 5, "C07.fixpoint": 4, "C07.tol": 2, "C07.compose": 2, "C07.models": 2, "C07.los": 1, "C07.answer": 2}
 
 sp_, cp_, sl_, cl_ = sp.symbols("s_phi c_phi s_lam c_lam", real=True)
 RELS = [sp_ ** 2 + cp_ ** 2 - 1, sl_ ** 2 + cl_ ** 2 - 1]
@@ -731,4 +731,9 @@ def run(ctx):
         ctx.attempt(r, ctx)
     # the caller's arguments (arrays, filter / fill dictionaries) are not modified: an in-place update makes the next call on the same objects wrong
     from ..purity import rule_pure as _rule_args
-    ctx.attempt(_rule_args, ctx, "C07.args", [('typhon/geodesy.py', 'cart2geodetic'), ('typhon/geodesy.py', 'geodetic2cart'), ('typhon/geodesy.py', 'great_circle_distance'), ('typhon/geodesy.py', 'tunnel_distance'), ('typhon/geodesy.py', 'geocentricposlos2cart'), ('typhon/geodesy.py', 'cartposlos2geocentric'), ('typhon/geodesy.py', 'geocentric2cart'), ('typhon/geodesy.py', 'cart2geocentric')], "the caller's arguments are not modified in place")
+    ctx.attempt(_rule_args, ctx, "C07.args", [('typhon/geodesy.py', 'cart2geodetic'), ('typhon/geodesy.py', 'geodetic2cart'), ('typhon/geodesy.py', 'great_circle_distance'), ('typhon/geodesy.py', 'tunnel_distance'), ('typhon/geodesy.py', 'geocentricposlos2cart'), ('typhon/geodesy.py', 'cartposlos2geocentric'), ('typhon/geodesy.py', 'geocentric2cart'), ('typhon/geodesy.py', 'cart2geocentric'), ('typhon/geodesy.py', 'geocentric2geodetic'), ('typhon/geodesy.py', 'geodetic2geocentric')], "the caller's arguments are not modified in place")
+    # the composed conversions answer only through the two conversions they compose: a short cut decided by the arguments alone (a spherical model, ...)
+    # is outside what C07.compose reads - no verdict rather than silence
+    from ..early import rule_early_table
+    rule_early_table(ctx, "C07.answer", [(GEO, "geocentric2geodetic", ("cart2geodetic",), "the composed conversion", ()),
+                                          (GEO, "geodetic2geocentric", ("cart2geocentric",), "the composed conversion", ())])
